@@ -102,9 +102,13 @@ class C12(XsProp):
             ln = rng.choice([0, 1, 2, 3, 5])
             vec = [('I', rng.randint(-5, 9)) for _ in range(ln)]
             vsrc = cells.source(('V', vec))
-            idx = rng.choice([0, 1, -1, ln, -ln, ln + 1, -(ln + 1), ln - 1, 2 ** 63 - 1, -(2 ** 63), 2 ** 63, 2 ** 64, -(2 ** 127), 2 ** 127 - 1])
+            idx = rng.choice([0, 1, -1, ln, -ln, ln + 1, -(ln + 1), ln - 1, 2 ** 63 - 1, -(2 ** 63), 2 ** 63, 2 ** 64, -(2 ** 127), 2 ** 127 - 1,
+                              2 ** 64 + 1, 2 ** 64 + max(ln - 1, 0), 2 ** 65, 3 * 2 ** 64 + 1, 2 ** 32, 2 ** 32 + 1, -(2 ** 64), -(2 ** 64) + 1, 2 ** 127 - 2 ** 64 + 1])
             idx2 = rng.choice([0, 1, -1, ln, -ln, ln + 1, 2, 2 ** 63 - 1, -(2 ** 63), 2 ** 64])
-            op = rng.choice(['nth', 'get', 'slice', 'reverse', 'push', 'length', 'sort', 'unbox', 'strslice', 'join', 'joinmix', 'joinmix'])
+            op = rng.choice(['nth', 'get', 'get', 'slice', 'reverse', 'push', 'length', 'sort', 'unbox', 'strslice', 'join', 'joinmix', 'joinmix'])
+            if i % 9 == 0 and ln:
+                # positions beyond the 64-bit range whose low bits would be a valid position
+                op, idx = rng.choice(['get', 'nth', 'collectn']), rng.choice([1, 2, 3]) * 2 ** 64 + rng.randrange(ln)
             if op == 'joinmix':
                 # elements of mixed kinds, empty strings and empty / nested vectors included, every separator
                 def el(d=0):
@@ -142,6 +146,8 @@ class C12(XsProp):
                 prog, exp = 'v length', ('length', vec)
             elif op == 'sort':
                 prog, exp = 'v sort', ('sort', vec)
+            elif op == 'collectn':
+                prog, exp = 'v unbox %d collect' % (idx + 1), ('collectn', vec)     # a count nobody can satisfy: must be refused
             elif op == 'unbox':
                 prog, exp = 'v unbox %d collect' % ln, ('same', vec)
             elif op == 'join':
@@ -281,6 +287,8 @@ class C12(XsProp):
                             want = vec[ln + i]
                         else:
                             want = 'err'
+                    elif exp[0] == 'collectn':
+                        want = 'err'
                     elif exp[0] == 'get':
                         i = exp[2]
                         want = vec[i] if 0 <= i < ln else 'err'
